@@ -40,7 +40,12 @@ def arm(w, inj: dict, out: dict) -> None:
                 t.cancel()
 
             async def waiter():
-                done, pending = await asyncio.wait(tasks, timeout=1.0) if tasks else (set(), set())
+                # a handler that needs time to unwind when cancelled (generated clean-up delay) legitimately takes that long; the
+                # bus itself gets 1.0 virtual second on top
+                # (nested handlers unwind one after the other: child first, then the handler that awaited it, ...)
+                cl = [h.get('cleanup') or 0 for h in w.sc.get('handlers', [])]
+                grace = 1.0 + sum(cl) * (int(w.sc.get('maxdepth', 1)) + 1)
+                done, pending = await asyncio.wait(tasks, timeout=grace) if tasks else (set(), set())
                 w.rec('inj-cancel-done', pending=sorted(t.get_name()[:60] for t in pending), iters=loop.iterations)
 
             w.keep.append(loop.create_task(waiter(), name='bvt-cancel-waiter'))
